@@ -57,19 +57,23 @@ def inspect(paths, run, o):
     return out
 
 
-def make_job(jid, n, i, line, nrec, method, scans):
+def make_job(jid, n, i, line, nrec, method, scans, kind="expr"):
+    """kind expr: the abort is an error inside a match component under validation-mode raise; kind limit: an exception raised
+    outside the match components (the collect() function names a header that record [line] does not have)"""
     members = []
     for k in range(n):
-        if k == i:
+        if k == i and kind == "limit":
+            members.append(f'~id: m{k} validation-mode: raise~ $[{scans[k]}][ push("s", line_number()) collect("id", "a") ]')
+        elif k == i:
             members.append(f'~id: m{k} validation-mode: raise~ $[{scans[k]}][ push("s", line_number()) eq(line_number(), {line}) -> @x = int("zz") ]')
         else:
             members.append(f'~id: m{k}~ $[{scans[k]}][ push("s", line_number()) ]')
-    rows = [["id", "a"]] + [[f"r{j}", str(j)] for j in range(1, nrec)]
+    rows = [["id", "a"]] + [([f"r{j}"] if (kind == "limit" and j == line) else [f"r{j}", str(j)]) for j in range(1, nrec)]
     ids = [f"m{k}" for k in range(n)]
     return {"id": jid, "files": {"f": rows}, "groups": {"g": members, "ok": ['~id: m0~ $[*][ yes() ]', '~id: m1~ $[1*][ @c = count() ]']},
             "runs": [{"method": method, "pathsname": "g", "filename": "f", "new_instance": True, "identities": ids},
                      {"method": "collect_paths", "pathsname": "ok", "filename": "f", "new_instance": False, "identities": ["m0", "m1"]}],
-            "config": CFG, "inspect": inspect, "snapshot_inputs": True, "meta": {"n": n, "i": i, "line": line, "nrec": nrec, "method": method, "scans": scans}}
+            "config": CFG, "inspect": inspect, "snapshot_inputs": True, "meta": {"n": n, "i": i, "line": line, "nrec": nrec, "method": method, "scans": scans, "kind": kind}}
 
 
 def last_line(scan, nrec):
@@ -94,6 +98,7 @@ def run(ctx):
     if quick:
         rng.shuffle(points)
         points = points[:260]
+        points.append((2, 0, 2, 3, "collect_paths"))      # the witness of the open finding abort-on-last-scanned-line-completed-true, in every run
     else:
         points = points * 4          # every abort point under four random choices of the members' scan windows
     jobs = []
@@ -108,7 +113,9 @@ def run(ctx):
             pass
         else:
             scans = [s if s == scans[i] or s == "*" else "*" for s in scans]     # keep members in step in breadth-first runs
-        jobs.append(make_job(jid, n, i, line, nrec, method, scans))
+        # (the breadth-first methods trim lines elsewhere and do not raise here: the out-of-component abort is for the serial methods)
+        kind = "limit" if (line >= 1 and "by_line" not in method and rng.random() < 0.4) else "expr"
+        jobs.append(make_job(jid, n, i, line, nrec, method, scans, kind))
     res = pmap(ctx, groups.run_history, jobs, chunksize=2)
     lits, broken = [], []
     for j, r in zip(jobs, res):
@@ -160,7 +167,7 @@ def run(ctx):
     ctx.coverage.update({
         "evaluations": len(jobs) * 2, "distinct_nontrivial": len({repr(j["meta"]) for j in jobs}),
         "rule": "abort points (member index i of n in 1..3, line 0..nrec-1, nrec in {3,5,6}) x {collect_paths, fast_forward_paths, next_paths, collect_by_line, next_by_line} "
-                "(quick: 260 random points of the 840; thorough: all, each under four random choices of scan windows), random scan windows for the members; abort = 'eq(line_number(), L) -> @x = int(\"zz\")' under validation-mode raise; then one "
+                "(quick: 260 random points of the 840; thorough: all, each under four random choices of scan windows), random scan windows for the members; abort = 'eq(line_number(), L) -> @x = int(\"zz\")' under validation-mode raise, or (30% of the points with L >= 1) an exception raised outside the match components: collect(\"id\", \"a\") on a record L that lacks the header; then one "
                 "further collect_paths run of another group on the same instance. Non-trivial = every distinct abort point.",
         "samples": [case(0)], "exhaustive": not quick, "abort_points": len(jobs),
         "traces_validated_against_impl": len(idx) - len(agree_bad), "spec_failures": len(spec_bad), "on_last_scanned_line": len(d13),
@@ -171,7 +178,7 @@ def run(ctx):
 def replay(ctx, payload):
     c = payload.get("case") or payload.get("disagreeing_case")
     m = c["abort_point"]
-    r = groups.run_history(make_job(0, m["n"], m["i"], m["line"], m["nrec"], m["method"], m["scans"]))
+    r = groups.run_history(make_job(0, m["n"], m["i"], m["line"], m["nrec"], m["method"], m["scans"], m.get("kind", "expr")))
     for o in r["runs"]:
         print(o["exc"], {k: v for k, v in o["inspect"].items() if k != "stores"})
     return 0
